@@ -748,15 +748,32 @@ func runTrees(r *core.Run, cases []treeCase, cfgs []config) {
 	mergeCount(r, "tree_cases_per_skeleton", perSkel)
 }
 
+// mergeCount accumulates per-label counts; the stages run side by side, so the totals are kept here and
+// written to the evidence once by flushCounts
+var (
+	countMu sync.Mutex
+	counts  = map[string]map[string]int{}
+)
+
 func mergeCount(r *core.Run, key string, m map[string]int) {
-	cur, _ := r.Coverage[key].(map[string]int)
+	countMu.Lock()
+	defer countMu.Unlock()
+	cur := counts[key]
 	if cur == nil {
 		cur = map[string]int{}
+		counts[key] = cur
 	}
 	for k, v := range m {
 		cur[k] += v
 	}
-	r.Set(key, cur)
+}
+
+func flushCounts(r *core.Run) {
+	countMu.Lock()
+	defer countMu.Unlock()
+	for k, v := range counts {
+		r.Set(k, v)
+	}
 }
 
 // ---------------------------------------------------------------------------
@@ -802,6 +819,7 @@ func replay(r *core.Run) {
 	default:
 		r.Infra("unknown replay kind %v", rec.Key["kind"])
 	}
+	flushCounts(r)
 }
 
 func Run(r *core.Run) {
@@ -837,12 +855,10 @@ func Run(r *core.Run) {
 		}
 	} else {
 		// quick: the fixed (label-covering) part of every family plus a seeded 1/keep slice of its bulk
-		for s := 0; s < 2; s++ {
-			jobs = append(jobs, tlcJob{family: "expr", size: 2, shard: s, shards: 2, parts: 8, keep: 12, seed: r.Seed})
-		}
-		jobs = append(jobs, tlcJob{family: "spine", size: 2, shard: 0, shards: 1, parts: 8, keep: 20, seed: r.Seed})
-		jobs = append(jobs, tlcJob{family: "mix", size: 2, shard: 0, shards: 1, parts: 8, keep: 60, seed: r.Seed})
-		jobs = append(jobs, tlcJob{family: "skel", size: 1, shard: 0, shards: 1, parts: 8, keep: 6, seed: r.Seed})
+		jobs = append(jobs, tlcJob{family: "expr", size: 2, shard: 0, shards: 1, parts: 8, keep: 16, seed: r.Seed})
+		jobs = append(jobs, tlcJob{family: "spine", size: 2, shard: 0, shards: 1, parts: 8, keep: 30, seed: r.Seed})
+		jobs = append(jobs, tlcJob{family: "mix", size: 2, shard: 0, shards: 1, parts: 8, keep: 80, seed: r.Seed})
+		jobs = append(jobs, tlcJob{family: "skel", size: 1, shard: 0, shards: 1, parts: 8, keep: 8, seed: r.Seed})
 	}
 	// developer aid: C01_FAMILIES=expr,spine,skel,lit restricts the families (never set by bin/check users)
 	if only := os.Getenv("C01_FAMILIES"); only != "" {
@@ -855,33 +871,43 @@ func Run(r *core.Run) {
 		jobs = keep
 		r.Assume("developer run restricted to families " + only)
 	}
-	// the literal generators run side by side with the tree generators
+	// The stages run side by side: literals and JSX are replayed as soon as their generators finish, the tree
+	// families in two chains (the depth-2 expression shards; spines / forwarding chains / skeletons).
+	var wg sync.WaitGroup
+	stage := func(f func()) {
+		wg.Add(1)
+		go func() {
+			defer wg.Done()
+			f()
+		}()
+	}
 	doLit := os.Getenv("C01_FAMILIES") == "" || strings.Contains(","+os.Getenv("C01_FAMILIES")+",", ",lit,")
-	litCh := make(chan []litCase, 1)
-	go func() {
-		if doLit {
-			litCh <- genLiterals(r)
-		} else {
-			litCh <- nil
-		}
-	}()
 	doJSX := os.Getenv("C01_FAMILIES") == "" || strings.Contains(","+os.Getenv("C01_FAMILIES")+",", ",jsx,")
-	jsxCh := make(chan []jsxCase, 1)
-	go func() {
-		if doJSX {
-			jsxCh <- genJSX(r)
-		} else {
-			jsxCh <- nil
-		}
-	}()
-	trees := genTrees(r, jobs, 2)
-	r.Logf("TLC exported %d tree cases", len(trees))
-	runTrees(r, trees, cfgs)
-	lits := <-litCh
 	if doLit {
-		runLiterals(r, lits, cfgs)
+		stage(func() { runLiterals(r, genLiterals(r), cfgs) })
 	}
-	if jx := <-jsxCh; doJSX {
-		runJSX(r, jx, cfgs)
+	if doJSX {
+		stage(func() { runJSX(r, genJSX(r), cfgs) })
 	}
+	var chainA, chainB []tlcJob
+	for _, j := range jobs {
+		if j.family == "expr" || j.family == "rand" {
+			chainA = append(chainA, j)
+		} else {
+			chainB = append(chainB, j)
+		}
+	}
+	for _, chain := range [][]tlcJob{chainA, chainB} {
+		chain := chain
+		if len(chain) == 0 {
+			continue
+		}
+		stage(func() {
+			trees := genTrees(r, chain, 2)
+			r.Logf("TLC exported %d tree cases (%s ...)", len(trees), chain[0].family)
+			runTrees(r, trees, cfgs)
+		})
+	}
+	wg.Wait()
+	flushCounts(r)
 }
